@@ -7,7 +7,7 @@ import ast
 
 from .. import AnalysisError, flow
 from ..srcmodel import walk_local, norm, dotted, guards, enclosing_stmt, parent
-from . import common
+from . import common, forward
 
 META = {
     'explanation': (
@@ -21,7 +21,7 @@ META = {
         "index in descending order; every method called on a container "
         "resolves in its MRO. Predicate and duplicate-method semantics are "
         "not decided."),
-    'families': ['SINK', 'EXC', 'TBL'],
+    'families': ['SINK', 'EXC', 'TBL', 'FORWARD', 'DEADPARAM', 'SIB-DEFAULTS'],
 }
 
 VERIFY = ('self._verify_individual', 'self._verify_iterable', 'cls._verify_individual',
@@ -37,6 +37,7 @@ def check(ctx):
     ctx.attempt(_group)
     ctx.attempt(_selection)
     ctx.attempt(_mro_calls)
+    ctx.attempt(forward.check_all, module_suffixes=('containers.containers', 'plssdesc.plssdesc'))
 
 
 def _entry_paths(ctx, base):
